@@ -39,7 +39,12 @@ CLAIMED = {
             "k(eps/k) = eps, clipped and augmented rows respect the norms, noisy - clean = b.w/n + Delta |w|^2/2 with "
             "gradient b/n + Delta w. Tied to the code by interposing Vector (arguments reaching it), evaluating the returned "
             "objective/gradient at probe points, observing the arguments that reach the optimiser (row norms, l2 strength). "
-            "CMS Theorem 9 is cited; |b| ~ Gamma(d, 2s/eps') and the uniform direction are validated statistically.",
+            "The LAW of the noise vector is proved as well: four Gamma(d/4) draws give |b| ~ Gamma(d, rate eps'/(2s)) in both "
+            "branches and at the fit call site (noise_norm_law, fit_noise_norm_law), the normalised Gaussian direction is the "
+            "uniform (normalised surface) measure on the sphere - via rotation invariance and a uniqueness theorem for "
+            "rotation-invariant probability measures on the sphere proved here with characteristic functions - and b = r u "
+            "with independent r, u (noise_vector_law). CMS Theorem 9 (that this noise law gives eps-DP of the minimiser) is "
+            "cited; the KS tests on the real sampler stay as supporting validation.",
             "Trusted: Lean kernel + Mathlib; sklearn's LinearModelLoss is taken as the clean objective; scipy/joblib.",
             "§6 C17"),
     "C18": ("Lean 4 proof: bisection bracket invariant (any carrier) + spendable/maximal/antitone theorems over R + "
@@ -63,8 +68,13 @@ CLAIMED = {
             "returns 1 with probability e^-gamma; permute-and-flip: the sampler's own recursion equals the closed law and is "
             "eps-DP for any number of candidates; categorical unbalanced (factor 2) and balanced (equal normalisers), "
             "hierarchy utilities symmetric and in range. PARTIAL: the categorical balanced flag is decided with isclose "
-            "(rtol 1e-12): cat_dp_partial carries 'flag => equal normalisers', cat_dp_full is kept unproved; multi-uniform "
-            "laws treat each comparison as a Bernoulli branch. Tied to the code by (i) sampler outputs under scripted "
+            "(rtol 1e-12): cat_dp_partial carries 'flag => equal normalisers', cat_dp_full is kept unproved; the "
+            "multi-uniform samplers (bernoulli_neg_exp, permute-and-flip) are proved as PUSH-FORWARDS of the i.i.d. uniform "
+            "stream measure (Measure.infinitePi unif01) under the model's own list functions - prefix/shift independence, "
+            "a bind law over countably many disjoint boxes, stop law of the inner loop, P[1] = e^-gamma for every gamma < "
+            "fuel, permute-and-flip's run law = closed pmf, returns a.s., eps-DP on every candidate set "
+            "(paf_sampler_dp[_monotonic]); single-uniform samplers lifted to every output set under unif01 "
+            "(binary/geom/exp_sampler_dp). Tied to the code by (i) sampler outputs under scripted "
             "uniforms vs the driver, (ii) the exact pmf of the RUNNING sampler extracted by break-point bisection / decision-"
             "tree enumeration vs the model's closed-form law, and the property is checked directly on the extracted pmf "
             "(every neighbour pair and atom >= 1e-9, slack 1e-6).",
